@@ -17,6 +17,10 @@ class LifecycleKernel(GraphKernel):
     """shared rely contracts of NodeView::start / stop"""
     stop_may_throw = True
     start_may_throw = True
+    bounded_fallback = 3
+
+    def bound_sizes(self, I, n):
+        I.ctx.assume(self.gs.n <= n)
 
     def lc(self, ctx, nm):
         return self.gs.lcget(ctx, nm)
